@@ -55,7 +55,7 @@ From EasyML Require Import Base.Sx Model.Shape Model.Tensor Model.TSource Model.
   Model.Transform Model.TransformG Proofs.ShapeP Proofs.C01P Proofs.OdometerP Proofs.C09P Proofs.C13P
   Proofs.C13bP Proofs.SwapLoopP Proofs.C13SymP Proofs.C09OwnedP Proofs.C13MutP Proofs.SrcWfP
   Proofs.SrcLensP Proofs.C13CtorP Proofs.C13GenP
-  Model.IterG Model.TransformMutG Proofs.C09ViewsP Proofs.C13MutGenP Proofs.C13LeavesP Proofs.C13ReorderP.
+  Model.IterG Model.TransformMutG Proofs.C09ViewsP Proofs.C13MutGenP Proofs.C13LeavesP Proofs.C13ReorderP Proofs.C13EqTransP.
 From EasyML Require Model.Views Proofs.C02P Proofs.C02Inj.
 Import ListNotations.
 Open Scope N_scope.
@@ -228,6 +228,14 @@ Theorem C13_eq_sym : forall A (eqb : A -> A -> bool),
   (forall x y, eqb x y = true <-> x = y) ->
   forall l r : tsrc A, tensor_equality eqb l r = tensor_equality eqb r l.
 Proof. exact @equality_sym. Qed.
+
+(* ... and transitive: with C13_eq_refl and C13_eq_sym, == is an equivalence relation on sources that
+   meet the TensorRef contract *)
+Theorem C13_eq_trans : forall A (eqb : A -> A -> bool),
+  (forall x y, eqb x y = true <-> x = y) ->
+  forall l m r : tsrc A, src_total l -> src_total m -> src_total r ->
+  tensor_equality eqb l m = true -> tensor_equality eqb m r = true -> tensor_equality eqb l r = true.
+Proof. exact @equality_trans. Qed.
 
 (* similarity: exactly when reordering r's dimensions into l's name order (a TensorAccess over
    r) makes the two equal *)
@@ -472,6 +480,12 @@ Theorem C13_eq_iff_over_any_sources : forall A (eqb : A -> A -> bool),
    gs_shape l = gs_shape r /\
    forall idx, in_range idx (lens_of (gs_shape l)) -> gs_get l idx = gs_get r idx).
 Proof. exact @gen_equality_iff. Qed.
+
+Theorem C13_eq_trans_over_any_sources : forall A (eqb : A -> A -> bool),
+  (forall x y, eqb x y = true <-> x = y) ->
+  forall l m r : gsrc A, g_contract l -> g_contract m -> g_contract r ->
+  g_equality eqb l m = true -> g_equality eqb m r = true -> g_equality eqb l r = true.
+Proof. exact @gen_equality_trans. Qed.
 
 Theorem C13_similar_iff_over_any_sources : forall A (eqb : A -> A -> bool),
   (forall x y, eqb x y = true <-> x = y) ->
@@ -781,6 +795,7 @@ Print Assumptions C13_rename.
 Print Assumptions C13_eq_iff.
 Print Assumptions C13_eq_refl.
 Print Assumptions C13_eq_sym.
+Print Assumptions C13_eq_trans.
 Print Assumptions C13_similar_iff.
 Print Assumptions C13_similar_iff_some_reordering.
 Print Assumptions C13_similar_sym.
@@ -813,6 +828,7 @@ Print Assumptions C13_reorder_over_any_source.
 Print Assumptions C13_transpose_over_any_source.
 Print Assumptions C13_elementwise_over_any_sources.
 Print Assumptions C13_eq_iff_over_any_sources.
+Print Assumptions C13_eq_trans_over_any_sources.
 Print Assumptions C13_similar_iff_over_any_sources.
 Print Assumptions C13_similar_sym_over_any_sources.
 Print Assumptions C13_map_mut_with_index_over_any_lens_source.
